@@ -34,6 +34,35 @@ fn main() {
             }
         }
     }
+    // non-default bounds (hook Config::verif_with_bounds): a fresh backoff sits at the initial value, and every value stays in
+    // [initial_value, max_value]
+    for (ini_s, max_s) in [(10u64, 30u64), (2, 7), (5, 5)] {
+        let (ini, mx) = (Duration::from_secs(ini_s), Duration::from_secs(max_s));
+        for s in 0..8u8 {
+            let mut b = backoff::Backoff::new(backoff::Config::verif_with_bounds(ini, mx), ChaCha20Rng::from_seed([s; 32]));
+            n += 1;
+            let v0 = b.verif_value();
+            if v0 != ini && reported.insert("fresh-backoff-not-at-initial-value") {
+                rp_core::report(true, "fresh-backoff-not-at-initial-value", json!({"config": {"initial_s": ini_s, "max_s": max_s}, "rng_seed_byte": s, "increments": 0}),
+                    json!({"value_ms": v0.as_millis() as u64, "initial_ms": ini.as_millis() as u64}),
+                    &["backoff::Backoff::new.ensures#starts_at_initial", "backoff::Backoff::new.ensures#within_bounds"]);
+            }
+            for k in 1..=20 {
+                b.increment();
+                n += 1;
+                let v = b.verif_value();
+                let class = if v > mx { Some("above-max-after-increment") } else if v < ini { Some("below-initial") } else { None };
+                if let Some(c) = class {
+                    if reported.insert(c) {
+                        rp_core::report(true, c, json!({"config": {"initial_s": ini_s, "max_s": max_s}, "rng_seed_byte": s, "increments": k}),
+                            json!({"value_ms": v.as_millis() as u64, "initial_ms": ini.as_millis() as u64, "max_ms": mx.as_millis() as u64}),
+                            &["backoff::Backoff::increment.ensures#within_bounds", "backoff::Backoff::new.ensures#starts_at_initial", "backoff::Backoff::new.ensures#within_bounds"]);
+                    }
+                }
+            }
+        }
+    }
+
     // elapsed time: after k increments (k = 0..=40, so also from a saturated backoff) the reset interval (<= max_reset =
     // 180 s in the default configuration) has passed; the next increment must bring the value back to the initial value
     for s in 0..8u8 {
